@@ -456,6 +456,17 @@ func c19Block(e *Env) func(*rapid.T) {
 		if b1.Hash() != b2.Hash() {
 			viol("block-hash-not-function-of-content", "two blocks built from the same fields have different hashes")
 		}
+		// the hash is bound to the transaction list through the Merkle root: the root must be the root of the
+		// transactions the block really carries (for the anti-MEV block that includes the one derived from the pre-commit data)
+		if txs := b1.Transactions(); len(txs) > 0 {
+			leaves := make([]u256, len(txs))
+			for i, tx := range txs {
+				leaves[i] = tx.Hash()
+			}
+			if root := merkle.NewMerkleTree(leaves...).Root().Hash; root != b1.MerkleRoot() {
+				viol("merkle-root-not-of-transactions", fmt.Sprintf("MerkleRoot() of a block with %d transactions is not the Merkle root of Transactions()", len(txs)))
+			}
+		}
 		h0 := b1.Hash()
 		priv, pub := crypto.Generate(rand.Reader)
 		if err := b1.Sign(priv); err != nil {
